@@ -848,7 +848,7 @@ static int run_cmd(struct ctx *c, char **t, int nt) {
         /* (the fourth name differs from the second in letter case only: another section) */
         { static const char *const gn[4] = { "a", "g1", "grp22", "G1" }; int br = round ? (a / 4) % 4 < 2 : (a / 4) % 2 == 0;
           snprintf(g, sizeof g, br ? "[%s]" : "%s", gn[a % 4]); }
-        snprintf(k, sizeof k, "k%d", a); if (a % 7 == 3) gp = NULL;
+        snprintf(k, sizeof k, "k%d", a); if (a % 7 == 3) gp = (a % 14 == 3) ? NULL : "";      /* no section: NULL and "" in turn */
         if (a == 5 || a == 10) snprintf(k, sizeof k, "_none_");      /* a key like any other (two sections; a == 10: group-less) */
         if (!strcmp(T, "Int")) { int32_t v = (int32_t)(uint32_t)b, r = 0; if (!round) e2 = econf_setIntValue(kf, gp, k, v); else { e2 = es ? es : econf_getIntValue(q, gp, k, &r); ok = !e2 && r == v; } }
         else if (!strcmp(T, "UInt")) { uint32_t v = (uint32_t)b, r = 0; if (!round) e2 = econf_setUIntValue(kf, gp, k, v); else { e2 = es ? es : econf_getUIntValue(q, gp, k, &r); ok = !e2 && r == v; } }
